@@ -41,6 +41,10 @@ def run(ctx):
     b = c01.builders(ctx)[: (150 if ctx.tier == "quick" else 1500)]
     b += [("namespace", c02.ns_history) for _ in range(14 if ctx.tier == "quick" else 300)]
     b += [("rdb-partition", part_history) for _ in range(6 if ctx.tier == "quick" else 100)]
+    # hardfiles with 1..5 bitmap pages (the root block's page list beyond three entries) and, in the thorough tier, a bitmap extension block
+    from . import c04
+    b += [("multi-page", c04.big_volume) for _ in range(6 if ctx.tier == "quick" else 60)]
+    b += [("bitmap-extension-volume", c04.huge_volume) for _ in range(0 if ctx.tier == "quick" else 4)]
     rule = ("same generators as C01 and C02 plus histories on a partition of a two-partition RDB disk; every dumped image is judged by the extracted decoder "
             "(types, self/parent pointers, checksums, hash placement, highSeq/extension counts, OFS data headers, bitmap flag) and compared with the model; "
             "non-trivial = at least one image judged with a non-empty tree; distinct = distinct script")
